@@ -37,7 +37,8 @@ def gen_cases(rng, tier):
     for i in range(n):
         spec = ocpgen.gen_stage(rng, PROFILE)
         lv = spec["leaves"]
-        e = E.rand_expr(rng, lv["x"] + lv["u"] + [["t"]], depth=2)
+        e = E.rand_expr(rng, lv["x"] + lv["u"] + [["t"]] + ([["t0"]] if rng.random() < 0.4 else []) +
+                        (lv["z"] if rng.random() < 0.5 else []), depth=2)
         if not any(nn[0] == "s" and nn[1].startswith("x") for nn in E.walk(e)):
             e = ["+", e, rng.choice(lv["x"])]
         spec["objective"] = [["at_tf", ["sq", rng.choice(lv["x"])]]]
@@ -172,7 +173,9 @@ def run_case(case):
                 tt, vv = C.call("sample(quad):%s%s" % (g, kw), st.sample, b.syms[s_["name"]], grid=g, **kw)
                 outs_q += [ca.MX(tt), ca.MX(vv)]
         F_q = ca.Function("sq", [obs.view.x, obs.view.p], outs_q) if outs_q else None
-        samp = C.call("sampler", st.sampler, [sym for _, sym, _ in targets])
+        # Stage.sampler takes expressions of t, x, z, u only (no horizon symbols, parameters or variables)
+        expr_in_sampler = not E.uses(case["expr"], "t0", "T")
+        samp = C.call("sampler", st.sampler, [sym for _, sym, _ in (targets if expr_in_sampler else targets[:-1])])
     except C.RockitRaised as e:
         res["violations"].append(C.exc_violation(ID, e, "|".join(sig.split("|")[:2])))
         return res
@@ -390,6 +393,10 @@ def run_case(case):
                                 nm, t, step, got[qi, c], want)})
                         return res
         # expression through the sampler: e evaluated on sampled ingredients
+        if any(nn[0] == "s" and nn[1] in {q["name"] for q in spec.get("algebraics", [])} for nn in E.walk(case["expr"])):
+            tq = []          # algebraic values at arbitrary times are not among the sampled ingredients
+        if not expr_in_sampler:
+            tq = []
         got_e = np.array(out[-1], dtype=float).reshape(-1)
         from .c07 import PointEnv
         ucols = {s["name"]: ph["uc:" + s["name"]] for s in spec["controls"]}
